@@ -241,11 +241,20 @@ func (c *Conn) run(kind, sqlText string, args []interface{}, binary bool) (*resu
 			}
 			return nil, &mysql.MySQLError{Number: uint16(f.Num), Message: msg}
 		case "badconn":
+			inTxn := c.txn != nil && c.txn.explicit
 			c.kill()
 			je.Err = "injected connection loss (statement not applied)"
 			je.Seq = s.logf("DB c%d %s %s -> connection lost before the statement", c.id, kind, oneLine(sqlText))
 			s.journal(je)
 			s.mu.Unlock()
+			if inTxn {
+				// driver.ErrBadConn ("safe to retry on another connection") inside an
+				// open transaction makes database/sql's Conn.close wait for the
+				// transaction's own read lock (closemu) - a self-deadlock of the
+				// standard library; the real driver reports a connection that dies
+				// mid-transaction as ErrInvalidConn in the common case
+				return nil, mysql.ErrInvalidConn
+			}
 			return nil, driver.ErrBadConn
 		}
 	}
